@@ -1005,6 +1005,93 @@ def replay_create2_magic(r):
 
 
 # ---------------------------------------------------------------------------------------
+# EXTCODESIZE / EXTCODECOPY / EXTCODEHASH (address alias resolution is the C02 contract: it returns the account
+# the address denotes on this path, or None when it denotes no account with code)
+
+
+def ext_cases():
+    out = []
+    OTHER = z3.BitVecVal(0xC0DE, 160)
+
+    def setup(interp, op, operands, known):
+        s = Step(interp, bytes([op, 0]), operands)
+        other_code = hs.Contract(bytes([0x60, 0x01, 0x5B, 0x00, 0xFE]))
+        s.ex.code[OTHER] = other_code
+        asked = []
+        interp.contracts["halmos.sevm:SEVM.resolve_address_alias"] = lambda i, a, k: (asked.append(a[2]), OTHER if known else None)[1]
+        return s, other_code, asked
+
+    for known in (True, False):
+
+        def harness_size(interp, known=known):
+            ctx = interp.ctx
+            addr = mk_word(ctx, "addr", "term")
+            s, other_code, asked = setup(interp, hs.OP_EXTCODESIZE, [addr], known)
+            ctx.assume(z3.And(*[z3.Extract(159, 0, den_word(addr)) != a for a in (hs.hevm_cheat_code.address, hs.halmos_cheat_code.address)]))
+            s.run()
+            if s.expect_continue(1, "EXTCODESIZE"):
+                ctx.oblige("EXTCODESIZE pushes the code length of the account the address denotes, 0 if it denotes none", den_word(s.pushed()[0]) == (5 if known else 0))
+                ctx.oblige("the account is looked up for the 160-bit address on the stack, once", z3.BoolVal(len(asked) == 1) if len(asked) != 1 else (asked[0].as_z3() if hasattr(asked[0], "as_z3") else asked[0]) == z3.Extract(159, 0, den_word(addr)))
+                s.no_memory_effect()
+
+        out.append(Case(f"{PROP}/sevm.SEVM.run#EXTCODESIZE", "account with code" if known else "no such account", harness_size, sources=RUN_SRC))
+
+        for off, size in ((0, 32), (10, 32), (3, 4), (40, 8)):
+
+            def harness_copy(interp, known=known, off=off, size=size):
+                ctx = interp.ctx
+                addr = mk_word(ctx, "addr", "term")
+                dst = mem_loc(ctx, "dst")
+                ctx.assume(dst._value.e + size <= MAXMEM)
+                s, other_code, asked = setup(interp, hs.OP_EXTCODECOPY, [addr, dst, hb.HalmosBitVec(off), hb.HalmosBitVec(size)], known)
+                sl = []
+                if known:
+                    def contract_slice(i, a, kw):
+                        g = GSlice(GBytes("extcode", s.log), 0, a[1], a[1] + a[2], s.log)
+                        sl.append((a[0], a[1], a[2], g))
+                        return g
+
+                    interp.contracts["halmos.contract:Contract.slice"] = contract_slice
+                n0 = len(ctx.ghost_log)
+                s.run()
+                if not s.expect_continue(0, "EXTCODECOPY"):
+                    return
+                writes = [e for e in s.log if e[0] == "set_slice"]
+                ok = len(writes) == 1 and writes[0][1] is s.mem
+                ctx.oblige("EXTCODECOPY is exactly one write of `size` bytes to memory", z3.BoolVal(ok), info={"log": str([e[0] for e in s.log])})
+                if not ok:
+                    return
+                _, _, _, c0, c1, val = writes[0]
+                ctx.oblige("EXTCODECOPY writes memory[dst, dst+size)", z3.And(ie(c0) == dst._value.e, ie(c1) == dst._value.e + size))
+                if known:
+                    ctx.oblige("the bytes written are code[offset, offset+size) of that account (zero beyond its end)", z3.BoolVal(len(sl) == 1 and sl[0][0] is other_code and sl[0][1] == off and sl[0][2] == size and val is sl[0][3]))
+                else:
+                    good = isinstance(val, ByteVec) and not isinstance(val, GBytes) and len(val) == size and val.unwrap() == bytes(size)
+                    ctx.oblige("an account without code has empty code: exactly `size` zero bytes are written, whatever the offset", z3.BoolVal(good), info={"written": f"{len(val) if hasattr(val, '__len__') else '?'} byte(s)"})
+
+            out.append(Case(f"{PROP}/sevm.SEVM.run#EXTCODECOPY", ("account with code" if known else "no such account") + f"; offset {off}, size {size}", harness_copy, replay=replay_code(bytes([0x7F]) + b"\xff" * 32 + bytes([0x60, 0, 0x52, 0x60, size, 0x60, off, 0x60, 0, 0x61, 0x12, 0x34, hs.OP_EXTCODECOPY, 0x60, 0x40, 0x60, 0, hs.OP_RETURN])), sources=RUN_SRC))
+
+        def harness_hash(interp, known=known):
+            ctx = interp.ctx
+            addr = mk_word(ctx, "addr", "term")
+            s, other_code, asked = setup(interp, hs.OP_EXTCODEHASH, [addr], known)
+            ctx.assume(z3.And(*[z3.Extract(159, 0, den_word(addr)) != a for a in hs.CHEATCODE_ADDRESSES]) if hasattr(hs, "CHEATCODE_ADDRESSES") else z3.BoolVal(True))
+            n0 = len(s.ex.path.conditions)
+            s.run()
+            if s.expect_continue(1, "EXTCODEHASH"):
+                from eth_hash.auto import keccak
+
+                want = int.from_bytes(keccak(bytes([0x60, 0x01, 0x5B, 0x00, 0xFE])), "big") if known else 0
+                new = list(s.ex.path.conditions)[n0:]
+                facts = z3.And(*new) if new else z3.BoolVal(True)
+                ctx.oblige("EXTCODEHASH pushes keccak256 of the account's code, 0 for an address that denotes no account", z3.Implies(facts, den_word(s.pushed()[0]) == z3.BitVecVal(want, 256)))
+                s.no_memory_effect()
+
+        out.append(Case(f"{PROP}/sevm.SEVM.run#EXTCODEHASH", "account with code" if known else "no such account", harness_hash, sources=RUN_SRC))
+    return out
+
+
+# ---------------------------------------------------------------------------------------
 # recorded deviations (known findings): active-memory size after reads, CODECOPY at a symbolic offset
 
 
@@ -1341,7 +1428,7 @@ def build_cases(tier="quick"):
         ref.append(Case(f"{PROP}/" + c.unit.split("/", 1)[1] + "#fork-ownership", c.case, c.harness, replay=c.replay, sources=c.sources))
     for c in c09.callback_cases() + c09.create_cases():
         ref.append(Case(f"{PROP}/" + c.unit.split("/", 1)[1] + "#frame-end", c.case, c.harness, replay=c.replay, sources=c.sources))
-    return stack_cases() + limit_cases() + env_cases() + memory_cases() + halt_cases() + sha3_cases() + deviation_cases() + ref
+    return stack_cases() + limit_cases() + env_cases() + memory_cases() + halt_cases() + sha3_cases() + ext_cases() + deviation_cases() + ref
 
 
 ASSUMPTIONS = [
@@ -1350,7 +1437,7 @@ ASSUMPTIONS = [
     "memory, calldata and returndata are ghost flat arrays standing for the ByteVec contract of C07 (get_word / unwrap are covered there only by a bounded stand-in); Contract.slice / decode_instruction are C19's (PUSH operands: concrete families n = 1..32)",
     "gas is not modelled by halmos: GAS is an unconstrained word, accesses beyond MAX_MEMORY_SIZE = 2^20 end with out-of-gas; a concrete run with enough gas to go further is outside the model",
     "hash facts (non-zero, below 2^256 - 2^64, injective per width) are the documented assumptions on keccak; SHA3 is proved for the size family " + str(SHA3_SIZES) + " and all offsets",
-    "EXTCODESIZE / EXTCODECOPY / EXTCODEHASH (address alias resolution, C02) and CODECOPY with a symbolic offset are not under contract here",
+    "EXTCODESIZE / EXTCODECOPY / EXTCODEHASH are proved relative to the C02 contract of resolve_address_alias (the account an address denotes on this path, or none), for addresses other than the cheatcode addresses (whose code size / hash are Foundry-compatible dummies); EXTCODECOPY for a family of concrete offsets and sizes and all destinations",
 ]
 TRUSTED = ["pyvc (this repository's verifier)", "z3 4.12.6", "eth_hash keccak256 (reference for concrete hashes)"]
 TECHNIQUE = "per-step refinement contracts: each dispatch arm of SEVM.run executed from the real AST on a real Exec with symbolic words and ghost flat byte arrays; Yellow-Paper step as postcondition; z3"
